@@ -33,6 +33,13 @@ U16 = {'unsigned short', 'uint16_t'}
 S16 = {'short', 'int16_t'}
 
 
+def _strp(v):
+    """a string literal as a pointer to its first character"""
+    if isinstance(v, tuple) and len(v) == 2 and v[0] == 'str':
+        return ('ep', ('strlit', v[1]), 0)
+    return v
+
+
 def pointee(t):
     """(element type, its size in bytes) of a pointer type, or (None, None)"""
     t = norm_type(t)
@@ -152,6 +159,9 @@ class CInt:
             if e[1] in ('<<', '>>'):
                 return self.type_of(e[2])
             return common(self.type_of(e[2]), self.type_of(e[3]))
+        if k == 'un' and e[1] == '*':
+            pe_ = pointee(self.type_of(e[2]) or '')
+            return norm_type(pe_[0]) if pe_ and pe_[0] else None
         if k == 'un':
             if e[1] == '!':
                 return 'int'
@@ -160,6 +170,10 @@ class CInt:
             return common(self.type_of(e[2]), self.type_of(e[3]))
         if k == 'sizeof':
             return 'unsigned long'
+        if k == 'idx' or (k == 'un' and e[1] == '*'):
+            pt = self.type_of(e[1] if k == 'idx' else e[2])
+            pe_ = pointee(pt) if pt else None
+            return norm_type(pe_[0]) if pe_ and pe_[0] else None
         if k == 'call':
             nm = ir.callee_name(e)
             f = self.P.fn(nm, required=False) if nm else None
@@ -256,11 +270,32 @@ class CInt:
                 if pv[2] in pv[1].locals:
                     return pv[1].locals[pv[2]]
                 raise NoEval('read through a pointer to a local that has no value yet')
+        if k == 'dot' and ir.top_nocast(e[1])[0] == 'local':
+            sv = self.locals.get(ir.top_nocast(e[1])[2])
+            if isinstance(sv, tuple) and sv[:1] == ('struct',):
+                r_ = self.P.records.get(sv[1][7:].strip())
+                names_ = [f[0] for f in r_['fields']] if r_ else []
+                if e[2] in names_:
+                    return sv[2][names_.index(e[2])]
         if k in ('arrow', 'dot', 'idx') or (k == 'un' and e[1] == '*'):
             ep = self.elem_lvalue(e)
             if ep is not None:
                 if ep in self.atoms:
                     return self.atoms[ep]
+                if isinstance(ep[1], tuple) and ep[1][0] == 'strlit' and ep[3] is None:
+                    # a character of a string literal (the terminator included)
+                    bs = ep[1][1].encode('latin-1', 'replace') if isinstance(ep[1][1], str) else bytes(ep[1][1])
+                    if 0 <= ep[2] < len(bs):
+                        return bs[ep[2]] if bs[ep[2]] < 128 else bs[ep[2]] - 256
+                    if ep[2] == len(bs):
+                        return 0
+                    raise NoEval('read outside a string literal')
+                if ep[3] is None:
+                    # a whole struct element read as a value: its fields
+                    tn = str(self.type_of(e) or '').strip()
+                    r_ = self.P.records.get(tn[7:].strip()) if tn.startswith('struct ') else None
+                    if r_ and all(('elem', ep[1], ep[2], f[0]) in self.atoms for f in r_['fields']):
+                        return ('struct', tn, tuple(self.atoms[('elem', ep[1], ep[2], f[0])] for f in r_['fields']))
                 if self.unknown is not None:
                     v = self.unknown(ep)
                     self.atoms[ep] = v
@@ -392,6 +427,8 @@ class CInt:
                 return self.ev(e[3])
             a, b = self.ev(e[2]), self.ev(e[3])
             if isinstance(a, tuple) or isinstance(b, tuple):
+                if op in ('+', '-', '<', '>', '<=', '>='):
+                    a, b = _strp(a), _strp(b)       # a string literal is the address of its first character
                 if op in ('+', '-') and isinstance(a, tuple) and a[0] == 'ep' and isinstance(b, int):
                     return ('ep', a[1], a[2] + (b if op == '+' else -b))
                 if op == '+' and isinstance(b, tuple) and b[0] == 'ep' and isinstance(a, int):
@@ -453,6 +490,37 @@ class CInt:
             return self.ev(e[2]) if self.ev(e[1]) else self.ev(e[3])
         if k == 'assign':
             op = e[1]
+            lt_ = ir.top_nocast(e[2])
+            if op == '=' and e[3][0] == 'initlist' and lt_[0] == 'local' and str(self.ltypes.get(lt_[2]) or '').startswith('struct '):
+                # a struct local initialised from a brace list: missing fields are zero
+                tn = str(self.ltypes[lt_[2]]).strip()
+                r_ = self.P.records.get(tn[7:].strip())
+                if r_ is None:
+                    raise NoEval('struct %s' % tn)
+                vals_ = [self.ev(x) for x in e[3][1]] + [0] * (len(r_['fields']) - len(e[3][1]))
+                v = ('struct', tn, tuple(vals_))
+                self.locals[lt_[2]] = v
+                return v
+            if op == '=' and e[3][0] == 'initlist' and lt_[0] == 'local' and re.match(r'^(.*)\[(\d*)\]$', str(self.ltypes.get(lt_[2]) or '').strip()):
+                # a local array initialised from a brace list: the remaining elements are zero
+                m_ = re.match(r'^(.*)\[(\d*)\]$', str(self.ltypes[lt_[2]]).strip())
+                n_ = int(m_.group(2)) if m_.group(2) else len(e[3][1])
+                base = ('ep', ('local-array', self.fn['name'], lt_[1], id(self)), 0)
+                self.locals[lt_[2]] = base
+                for i_ in range(n_):
+                    self.atoms[('elem', base[1], i_, None)] = wrap(self.ev(e[3][1][i_]), m_.group(1).strip()) if i_ < len(e[3][1]) else 0
+                return base
+            if op == '=' and lt_[0] == 'dot' and ir.top_nocast(lt_[1])[0] == 'local' and isinstance(self.locals.get(ir.top_nocast(lt_[1])[2]), tuple) and \
+                    self.locals[ir.top_nocast(lt_[1])[2]][:1] == ('struct',):
+                # a field of a struct local
+                sv = self.locals[ir.top_nocast(lt_[1])[2]]
+                r_ = self.P.records.get(sv[1][7:].strip())
+                names_ = [f[0] for f in r_['fields']]
+                v = wrap(self.ev(e[3]), self.type_of(e[2]))
+                vals_ = list(sv[2])
+                vals_[names_.index(lt_[2])] = v
+                self.locals[ir.top_nocast(lt_[1])[2]] = ('struct', sv[1], tuple(vals_))
+                return v
             if op == '=':
                 v = self.ev(e[3])
             else:
@@ -479,11 +547,11 @@ class CInt:
                 if inner is not None and inner[3] is None:
                     return ('elem', inner[1], inner[2], e[2])
             elif e[0] == 'idx':
-                b = self.ev(e[1])
+                b = _strp(self.ev(e[1]))
                 if isinstance(b, tuple) and b[0] == 'ep':
                     return ('elem', b[1], b[2] + self.ev(e[2]), None)
             elif e[0] == 'un' and e[1] == '*':
-                b = self.ev(e[2])
+                b = _strp(self.ev(e[2]))
                 if isinstance(b, tuple) and b[0] == 'ep':
                     return ('elem', b[1], b[2], None)
         except NoEval:
